@@ -95,16 +95,11 @@ Proof.
       destruct (is_appending key); [|cbn; apply sg_refl].
       destruct (hget (st_heap st) ta) as [[t|tl|tm]|]; try (cbn; apply sg_set_ub).
       * destruct (node_empty (HScalar t)); [|cbn; apply sg_refl].
-        destruct (alloc st (HList [])) as [a0 st1] eqn:Ea.
-        destruct (set_item st1 target (Some a0)) as [st2 t1] eqn:Es.
-        pose proof (sg_alloc st (HList [])) as H1. rewrite Ea in H1.
+        destruct (alloc st (HList vl)) as [a0 st1] eqn:Ea.
+        destruct (set_item st1 target (Some a0)) as [st2 t1] eqn:Es. cbn.
+        pose proof (sg_alloc st (HList vl)) as H1. rewrite Ea in H1.
         pose proof (sg_set_item target st1 (Some a0)) as H2. rewrite Es in H2. cbn [fst snd] in *.
-        destruct vl as [|x vl]; [cbn; eapply sg_trans; eassumption|].
-        destruct (alloc st2 (HList (x :: vl))) as [a' st3] eqn:Ea2.
-        destruct (set_item st3 t1 (Some a')) as [st4 t2] eqn:Es2. cbn.
-        pose proof (sg_alloc st2 (HList (x :: vl))) as H3. rewrite Ea2 in H3.
-        pose proof (sg_set_item t1 st3 (Some a')) as H4. rewrite Es2 in H4. cbn [fst snd] in *.
-        eapply sg_trans; [eapply sg_trans; [eapply sg_trans|]|]; eassumption.
+        eapply sg_trans; eassumption.
       * destruct vl as [|x vl]; [cbn; apply sg_refl|].
         destruct (alloc st (HList (tl ++ x :: vl))) as [a' st1] eqn:Ea.
         destruct (set_item st1 target (Some a')) as [st2 t'] eqn:Es. cbn.
@@ -112,16 +107,11 @@ Proof.
         pose proof (sg_set_item target st1 (Some a')) as H2. rewrite Es in H2.
         eapply sg_trans; eassumption.
       * destruct (node_empty (HMap tm)); [|cbn; apply sg_refl].
-        destruct (alloc st (HList [])) as [a0 st1] eqn:Ea.
-        destruct (set_item st1 target (Some a0)) as [st2 t1] eqn:Es.
-        pose proof (sg_alloc st (HList [])) as H1. rewrite Ea in H1.
+        destruct (alloc st (HList vl)) as [a0 st1] eqn:Ea.
+        destruct (set_item st1 target (Some a0)) as [st2 t1] eqn:Es. cbn.
+        pose proof (sg_alloc st (HList vl)) as H1. rewrite Ea in H1.
         pose proof (sg_set_item target st1 (Some a0)) as H2. rewrite Es in H2. cbn [fst snd] in *.
-        destruct vl as [|x vl]; [cbn; eapply sg_trans; eassumption|].
-        destruct (alloc st2 (HList (x :: vl))) as [a' st3] eqn:Ea2.
-        destruct (set_item st3 t1 (Some a')) as [st4 t2] eqn:Es2. cbn.
-        pose proof (sg_alloc st2 (HList (x :: vl))) as H3. rewrite Ea2 in H3.
-        pose proof (sg_set_item t1 st3 (Some a')) as H4. rewrite Es2 in H4. cbn [fst snd] in *.
-        eapply sg_trans; [eapply sg_trans; [eapply sg_trans|]|]; eassumption.
+        eapply sg_trans; eassumption.
     + (* map: the merge loop *)
       match goal with |- context[if ?c then _ else _] => destruct c end; [|cbn; apply sg_refl].
       assert (G : forall m s t, sg s (snd (fst (merge_loop_h (fun s t k v => edit_node_h wf s t k v true) m s t)))).
